@@ -25,6 +25,11 @@ type c12Case struct {
 	// Spell: how command verbs and parameter keywords are spelled: 0 upper
 	// case, 1 lower case, 2 alternating (both are case-insensitive)
 	Spell int `json:",omitempty"`
+	// Pre: what the connection has been through before the greeting whose
+	// reply is judged: 0 nothing; 1 a HELO (LMTP: an earlier LHLO); 2 a
+	// greeting refused for its missing argument; 3 a HELO and a transaction
+	// begun under it. Every greeting starts afresh (RFC 5321 4.1.4).
+	Pre int `json:",omitempty"`
 }
 
 func c12Expected(c c12Case) []string {
@@ -145,6 +150,39 @@ func c12Run(c c12Case) Verdict {
 	}
 	active := c.TLS == "implicit" || c.TLS == "upgraded" || c.TLS == "wrapped"
 	fail := func(v Verdict) Verdict { w.Finish(); return v }
+	// 0. earlier greetings on the same connection
+	if c.Pre != 0 {
+		first := "HELO first"
+		if c.LMTP {
+			first = "LHLO first"
+		}
+		var pre conv
+		switch c.Pre {
+		case 1:
+			pre.cmd(respell(first, c.Spell))
+		case 2:
+			pre.cmd(respell(strings.Fields(first)[0], c.Spell))
+		default:
+			pre.cmd(respell(first, c.Spell))
+			pre.cmd("MAIL FROM:<pre@x>")
+			pre.cmd("RCPT TO:<pre@y>")
+		}
+		out, st := w.Exchange(pre.buf)
+		prs, perr := harness.ParseReplies(out)
+		want := 1
+		if c.Pre == 3 {
+			want = 3
+		}
+		if st != harness.QIdle || perr != nil || len(prs) != want {
+			return fail(failf("pre", "earlier greeting %q: %s %v, replies %v", pre.buf, st, perr, codes(prs)))
+		}
+		if c.Pre == 2 && prs[0].Class() != 5 {
+			return fail(failf("pre", "greeting without argument answered %s", prs[0]))
+		}
+		if c.Pre != 2 && prs[0].Code != 250 {
+			return fail(failf("pre", "earlier greeting %q answered %s", first, prs[0]))
+		}
+	}
 	// 1. the capability list
 	out, st := w.Exchange([]byte(g + " cli\r\n"))
 	rs, perr := harness.ParseReplies(out)
@@ -364,7 +402,7 @@ func c12All() []c12Case {
 						for _, ab := range []bool{false, true} {
 							for _, lmtp := range []bool{false, true} {
 								out = append(out, c12Case{UTF8: bits&1 != 0, RequireTLS: bits&2 != 0, BinaryMIME: bits&4 != 0, DSN: bits&8 != 0, RRVS: bits&16 != 0,
-									Size: size, RcptMax: rm, TLS: tls, InsecureAuth: ins, AuthBackend: ab, LMTP: lmtp, Spell: len(out) % 3})
+									Size: size, RcptMax: rm, TLS: tls, InsecureAuth: ins, AuthBackend: ab, LMTP: lmtp, Spell: len(out) % 3, Pre: (len(out) / 3) % 4})
 							}
 						}
 					}
@@ -389,7 +427,7 @@ func init() {
 
 func TestC12(t *testing.T) {
 	registerAll()
-	st.Rule = "cases = all 7680 configurations (5 extension flags x size limit none/1000/8 GiB x recipient limit x TLS none/available/active/active through a caller-wrapped listener/available after a failed upgrade x AllowInsecureAuth x auth-capable backend x SMTP/LMTP), each: exact capability set vs a table, HELO single-line, one probe per extension (verbs and parameter keywords in upper, lower or alternating case), lines mixing parameters of enabled and disabled extensions, a DATA transaction after them, AUTH and STARTTLS probes, capability list again after an upgrade; thorough adds random probe orders and TLS activated through STARTTLS; non-trivial = configuration with at least one optional capability; distinct = hash of the configuration"
+	st.Rule = "cases = all 7680 configurations (5 extension flags x size limit none/1000/8 GiB x recipient limit x TLS none/available/active/active through a caller-wrapped listener/available after a failed upgrade x AllowInsecureAuth x auth-capable backend x SMTP/LMTP), each: exact capability set vs a table, HELO single-line, one probe per extension (verbs and parameter keywords in upper, lower or alternating case), lines mixing parameters of enabled and disabled extensions, a DATA transaction after them, AUTH and STARTTLS probes, the judged greeting being the first on its connection or following a HELO / a refused greeting / a HELO with an open transaction, capability list again after an upgrade; thorough adds random probe orders and TLS activated through STARTTLS; non-trivial = configuration with at least one optional capability; distinct = hash of the configuration"
 	if !regress(t, "C12") {
 		return
 	}
@@ -417,6 +455,7 @@ func TestC12(t *testing.T) {
 		}
 		c.Order = rapid.Permutation(seqInts(22)).Draw(rt, "order")
 		c.Spell = rapid.IntRange(0, 2).Draw(rt, "spell")
+		c.Pre = rapid.IntRange(0, 3).Draw(rt, "pre")
 		return c
 	})
 }
